@@ -1,7 +1,8 @@
 (* line protocol:  gen <addr> <p>            -> count, then all addresses (one line, space separated)
                    sum <addr> <p>            -> "<count> <first> <last> <xor-sum>"   (full enumeration)
                    nth <addr> <p> <k>        -> address or "none"
-                   sz <p>                    -> computeNetSz *)
+                   sz <p>                    -> computeNetSz
+                   all <a1> <p1> <a2> <p2> .. -> "<estimate> <count> <sorted addresses>" of discover_all / estimate *)
 open Model
 
 let rec pos_of_int (n:int) : positive =
@@ -35,6 +36,17 @@ let () =
          (match ip_gen_nth (n_of_int (int_of_string a)) (n_of_int (int_of_string p)) (n_of_int (int_of_string k)) with
           | None -> print_endline "none"
           | Some x -> print_endline (string_of_int (int_of_n x)))
+       | "all" :: rest ->
+         (* all a1 p1 a2 p2 ... -> "<estimate> <count> <addresses, sorted>" *)
+         let rec pairs = function
+           | a :: p :: r -> (n_of_int (int_of_string a), n_of_int (int_of_string p)) :: pairs r
+           | _ -> [] in
+         let nets = pairs rest in
+         let l = List.sort compare (List.rev (List.rev_map int_of_n (discover_all nets))) in
+         print_string (string_of_int (int_of_n (estimate nets)));
+         print_char ' '; print_string (string_of_int (List.length l));
+         List.iter (fun x -> print_char ' '; print_string (string_of_int x)) l;
+         print_newline ()
        | ["sz"; p] -> print_endline (string_of_int (int_of_n (compute_net_sz (n_of_int (int_of_string p)))))
        | [""] -> ()
        | _ -> print_endline ("error: bad request: " ^ line))
